@@ -307,7 +307,7 @@ def run(tier, replay=None):
         import json
         print(json.dumps(json.load(open(replay)), indent=1)[:3000])
         return 0
-    proof = common.prove(report, "C18", ["statemachines"], extra_targets=["Run/C18Run.vo"])
+    proof = common.prove(report, "C18", ["statemachines", "engine"], extra_targets=["Run/C18Run.vo"])
     ok, log = common.coq_make(["Run/C18Run.vo"])
     if not ok:
         report.violation({"kind": "broken-obligation", "obligation": "model Run/C18Run.vo does not build", "detail": log[-1500:], "also": proof.get("broken")}, False, tag="modelbuild")
